@@ -22,7 +22,10 @@ SPEC = dict(
                 "format (exercised on sampled values only); the descriptor of each Rust payload type is written by hand in the harness "
                 "(a wrong descriptor shows up as a byte disagreement); floats, maps and recursive types are outside the descriptor "
                 "universe; TaglessMemberId is the Legacy{raw_id:u32} variant (the only one under the embedded runtime feature); the "
-                "transport between network_out and network_in is the harness (demux_map over in-memory sinks), not TCP."),
+                "transport between network_out and network_in is the harness (demux_map over in-memory sinks), not TCP: the sender tag "
+                "attached to each message is supplied by that transport (in production by hydro_deploy's connection handling); what "
+                "is verified is that the generated tagged receive closure hands exactly that tag to the user through from_tagless "
+                "and that the demux send closure hands exactly the addressed id to the transport through into_tagless."),
     trusted_base=["serde derive + bincode 1.3.3 modelled by their wire format; exercised by correspondence on sampled values",
                   "hand-written descriptor per Rust payload type in harness/hv_net/src/val.rs",
                   "in-process transport (sinktools::demux_map over for_each sinks) instead of hydro_deploy's TCP/demux wiring"],
